@@ -1,5 +1,6 @@
 import CstModel.Props.C05
 import CstModel.Props.GenNode
+import CstModel.Props.GenSlot
 open Cst.C05
 #print axioms step_effect
 #print axioms torn_mono
@@ -14,3 +15,5 @@ open Cst.C05
 #print axioms atomic_is_get_or_add
 #print axioms Cst.Gen.n_try_write
 #print axioms Cst.Gen.n_read
+#print axioms Cst.Gen.n_get_or_add_node
+#print axioms Cst.Gen.n_get_or_add_element
